@@ -142,7 +142,7 @@ def judge(case):
 
 
 def shards(tier):
-    k, n = (16, 8) if tier == "quick" else (64, 400)
+    k, n = (16, 30) if tier == "quick" else (64, 400)
     return [{"id": i, "n": n} for i in range(k)]
 
 
